@@ -49,6 +49,7 @@ type Decl struct {
 	PrePop    bool     // PtrForm only: the caller's variable already holds something when it is declared
 	EnvSep    string   // separator of the names in the EnvVar list ("" = one blank); any white space is legal
 	EnvPad    string   // white space around the EnvVar list
+	BlankEnv  string   // the EnvVar list when no variable is listed: "" or white space only (names nothing)
 	NoSBU     bool     // do not supply a SetByUser pointer
 	Short     bool     // declare through the convenience methods (BoolOpt(name, value, desc), StringArgPtr(into, ...) ...): no env, no SetByUser
 	HideValue bool
@@ -112,7 +113,7 @@ func (d *Decl) EnvVarString() string {
 		sep = " "
 	}
 	if len(names) == 0 {
-		return ""
+		return d.BlankEnv // "" or white space only: no variable at all
 	}
 	return d.EnvPad + strings.Join(names, sep) + d.EnvPad
 }
